@@ -1,15 +1,48 @@
 """Property -> engines. Obligation membership is by the `props` tag on each spliced contract."""
 PROPS = {
+    'C13': dict(
+        level='proof',
+        verus=['overlaps'],
+        kani_quick=[], kani_thorough=[],
+        rac=['remove_indices'],
+        unverified=[], assumptions=[],
+    ),
+    'C15': dict(
+        level='proof',
+        verus=['edit_distance'],
+        kani_quick=[], kani_thorough=[],
+        unverified=[], assumptions=[],
+    ),
+    'C08': dict(
+        level='model_checking',
+        verus=[],
+        kani_quick=['pos_conv.index_to_position_ref_3', 'pos_conv.roundtrip_inner_3', 'pos_conv.roundtrip_single_line_3',
+                    'pos_conv.span_roundtrip_inner_3', 'pos_conv.roundtrip_final_line_3'],
+        kani_thorough=['pos_conv.index_to_position_ref_3', 'pos_conv.roundtrip_inner_3', 'pos_conv.roundtrip_single_line_3',
+                       'pos_conv.span_roundtrip_inner_3', 'pos_conv.roundtrip_final_line_3',
+                       'pos_conv.index_to_position_ref_4', 'pos_conv.roundtrip_inner_4', 'pos_conv.roundtrip_single_line_4',
+                       'pos_conv.span_roundtrip_inner_4', 'pos_conv.index_to_position_ref_5', 'pos_conv.roundtrip_inner_5'],
+        unverified=[], assumptions=[],
+    ),
+    'C17': dict(
+        level='proof',
+        verus=['number'],
+        kani_quick=['number.suffix_full_domain', 'number.from_chars_roundtrip'],
+        unverified=[], assumptions=[],
+    ),
     'C01': dict(
         level='proof',
-        verus=['patterns', 'lexing'],
-        kani_quick=[], kani_thorough=[],
+        verus=['patterns', 'lexing', 'edit_distance'],
+        kani_quick=['lexing.whitespace_5', 'jsdoc.parse_inline_tag_4', 'jsdoc.parse_inline_tag_5', 'jsdoc.mark_inline_tags_5'],
+        kani_thorough=['lexing.whitespace_5', 'lexing.whitespace_8', 'lexing.hex_5', 'lexing.hostname_4', 'lexing.url_4', 'lexing.email_4',
+                       'jsdoc.parse_inline_tag_4', 'jsdoc.parse_inline_tag_5', 'jsdoc.parse_inline_tag_6', 'jsdoc.mark_inline_tags_5'],
         unverified=[], assumptions=[],
     ),
     'C02': dict(
         level='proof',
-        verus=['lexing'],
-        kani_quick=[], kani_thorough=[],
+        verus=['lexing', 'number'],
+        kani_quick=['lexing.whitespace_5'],
+        kani_thorough=['lexing.whitespace_5', 'lexing.whitespace_8', 'lexing.hex_5', 'lexing.hostname_4', 'lexing.url_4', 'lexing.email_4'],
         unverified=[], assumptions=[],
     ),
     'C03': dict(
